@@ -171,6 +171,9 @@ static void body(Ctx& C)
          for (auto w : basic_specifier_words) { Q.refused(w, "basic-specifier-name"); (void)S.of_name(w); Q.refused(w, "basic-specifier-name-right-after-the-specifier-lookup"); Q.refused(w, "basic-specifier-name"); C.count("cross_family_lookups"); }
          for (auto w : basic_qualifier_words) { S.refused(w, "basic-qualifier-name"); (void)Q.of_name(w); S.refused(w, "basic-qualifier-name-right-after-the-qualifier-lookup"); S.refused(w, "basic-qualifier-name"); C.count("cross_family_lookups"); }
       }
+      // a basic name followed by a NUL byte (and more): another word altogether
+      for (auto w : basic_specifier_words) for (auto tail : { std::u8string(1, u8'\0'), std::u8string(u8"\0tail", 5), std::u8string(u8"\0\0", 2) }) { std::u8string s(w); s += tail; S.refused(s, "basic-name-then-NUL"); Q.refused(s, "basic-name-then-NUL"); }
+      for (auto w : basic_qualifier_words) for (auto tail : { std::u8string(1, u8'\0'), std::u8string(u8"\0tail", 5) }) { std::u8string s(w); s += tail; S.refused(s, "basic-name-then-NUL"); Q.refused(s, "basic-name-then-NUL"); }
       for (auto w : { u8"", u8"Static", u8"static ", u8"stati", u8"const_", u8"Const", u8"noexcept", u8"signed", u8"x" }) {
          S.refused(w, w[0] ? "dynamic" : "empty"); Q.refused(w, w[0] ? "dynamic" : "empty");
       }
